@@ -28,6 +28,7 @@ func runC09(c *mon.Ctx) {
 			c09SecondLife(c, r.Fork(78))
 			c09DeriveStorm(c, r.Fork(79))
 			c09DeriveVsClose(c, r.Fork(80))
+			c09DoubleClose(c, r.Fork(81))
 		})
 	}
 }
@@ -862,4 +863,58 @@ func c09DeriveVsClose(c *mon.Ctx, r *mon.Rand) {
 	root.Tagged(map[string]string{"after": "close"})
 	root.SubScope("after")
 	c.Event("first-requests-racing-a-root-close", atomic.LoadInt64(&derived))
+}
+
+// c09DoubleClose: 2-6 goroutines call Close on one and the same fresh child
+// at the same moment (spin barrier), 150 children in a row: no panic, and what
+// was recorded on each child before is delivered exactly once.
+func c09DoubleClose(c *mon.Ctx, r *mon.Rand) {
+	pr := mon.NewPlainRec(false)
+	root, _ := vNewRoot(tally.ScopeOptions{Reporter: pr, OmitCardinalityMetrics: true}, 0, uint(r.Range(0, 3)))
+	G := r.Range(2, 6)
+	const rounds = 150
+	var panics int64
+	var first atomic.Value
+	for k := 0; k < rounds; k++ {
+		child := root.SubScope(fmt.Sprintf("dc%d", k))
+		child.Counter("c").Inc(1)
+		var wg sync.WaitGroup
+		var ready int32
+		for g := 0; g < G; g++ {
+			wg.Add(1)
+			go func() {
+				defer wg.Done()
+				defer func() {
+					if p := recover(); p != nil {
+						if atomic.AddInt64(&panics, 1) == 1 {
+							first.Store(fmt.Sprint(p))
+						}
+					}
+				}()
+				atomic.AddInt32(&ready, 1)
+				for n := 0; atomic.LoadInt32(&ready) < int32(G); n++ {
+					if n > 2000 {
+						runtime.Gosched()
+					}
+				}
+				child.(io.Closer).Close()
+			}()
+		}
+		wg.Wait()
+		if k%32 == 31 {
+			tally.VerifReportPass(root)
+		}
+	}
+	tally.VerifReportPass(root)
+	if n := atomic.LoadInt64(&panics); n > 0 {
+		c.Violation("panic-concurrent-close", map[string]interface{}{"why": fmt.Sprintf("%d of the Close calls made by %d goroutines on one child scope at the same moment panicked: %v", n, G, first.Load())})
+	}
+	_, agg, _ := pr.Snapshot()
+	for k := 0; k < rounds; k++ {
+		if a := agg[mon.IdentKey(fmt.Sprintf("dc%d.c", k), nil)]; a.Sum != 1 {
+			c.Violation("contribution-lost", map[string]interface{}{"why": fmt.Sprintf("child dc%d was closed by %d goroutines at once after one increment: %d delivered", k, G, a.Sum)})
+			break
+		}
+	}
+	c.Event("children-closed-by-several-goroutines-at-once", rounds)
 }
